@@ -109,6 +109,54 @@ impl U for WithSkip {
     }
 }
 
+/// tuple structs: a skipped field in front of / between encoded fields (the
+/// derive must address fields by their declaration index)
+#[derive(Debug, Clone, PartialEq, Encode, Decode)]
+pub struct TupSkipFirst(#[serialize(skip)] pub u8, pub u32, pub String);
+impl U for TupSkipFirst {
+    fn mk(t: &mut Tape<'_>, d: u32) -> Self { Self(u8::mk(t, d), u32::mk(t, d), String::mk(t, d)) }
+    fn veq(&self, o: &Self) -> bool { self.1 == o.1 && self.2 == o.2 && self.0 == 0 }
+}
+#[derive(Debug, Clone, PartialEq, Encode, Decode)]
+pub struct TupSkipMid(pub u16, #[serialize(skip)] pub Vec<u8>, pub String, #[serialize(skip)] pub i8, pub i64);
+impl U for TupSkipMid {
+    fn mk(t: &mut Tape<'_>, d: u32) -> Self {
+        Self(u16::mk(t, d), Vec::mk(t, d), String::mk(t, d), i8::mk(t, d), i64::mk(t, d))
+    }
+    fn veq(&self, o: &Self) -> bool {
+        self.0 == o.0 && self.2 == o.2 && self.4 == o.4 && self.1.is_empty() && self.3 == 0
+    }
+}
+#[derive(Debug, Clone, PartialEq, Encode, Decode)]
+pub struct TupSkipGen<T>(#[serialize(skip)] pub u16, pub Option<T>, pub u8);
+impl<T: U> U for TupSkipGen<T> {
+    fn mk(t: &mut Tape<'_>, d: u32) -> Self { Self(u16::mk(t, d), Option::<T>::mk(t, d), u8::mk(t, d)) }
+    fn veq(&self, o: &Self) -> bool { self.1.veq(&o.1) && self.2 == o.2 && self.0 == 0 }
+}
+#[derive(Debug, Clone, PartialEq, Encode, Decode)]
+pub enum EnTupSkip {
+    A(#[serialize(skip)] u8, u32, String),
+    B(u8, #[serialize(skip)] String, i16),
+    C,
+}
+impl U for EnTupSkip {
+    fn mk(t: &mut Tape<'_>, d: u32) -> Self {
+        match t.idx(3) {
+            0 => Self::A(u8::mk(t, d), u32::mk(t, d), String::mk(t, d)),
+            1 => Self::B(u8::mk(t, d), String::mk(t, d), i16::mk(t, d)),
+            _ => Self::C,
+        }
+    }
+    fn veq(&self, o: &Self) -> bool {
+        match (self, o) {
+            (Self::A(s, a, b), Self::A(_, a2, b2)) => a == a2 && b == b2 && *s == 0,
+            (Self::B(a, s, b), Self::B(a2, _, b2)) => a == a2 && b == b2 && s.is_empty(),
+            (Self::C, Self::C) => true,
+            _ => false,
+        }
+    }
+}
+
 #[derive(Debug, Clone, PartialEq, Encode, Decode)]
 pub enum EnSkip {
     V { keep: u16, #[serialize(skip)] skipped: Vec<u8>, tail: bool },
@@ -175,4 +223,11 @@ pub fn register(r: &mut Vec<Entry>) {
     e_ser!(r, derived::WithSkip);
     e_ser!(r, derived::EnSkip);
     e_ser!(r, Vec<derived::WithSkip>);
+    e_ser!(r, derived::TupSkipFirst);
+    e_ser!(r, derived::TupSkipMid);
+    e_ser!(r, derived::TupSkipGen<String>);
+    e_ser!(r, derived::TupSkipGen<Vec<u32>>);
+    e_ser!(r, derived::EnTupSkip);
+    e_ser!(r, Vec<derived::TupSkipMid>);
+    e_ser!(r, (derived::TupSkipFirst, u64));
 }
